@@ -50,9 +50,9 @@ int vp_lock_max;
 #ifndef VP_LOG_CAP
 #define VP_LOG_CAP 6
 #endif
-struct vp_report { int sev; const char *file; unsigned long line; int lock_depth; struct vp_string msg; };
+struct vp_report { int fn; int sev; const char *file; unsigned long line; int lock_depth; struct vp_string msg; };
 struct vp_report vp_rep[VP_LOG_CAP]; int vp_rep_n;
-struct vp_okrep { const char *msg; };
+struct vp_okrep { int fn; const char *msg; };
 struct vp_okrep vp_ok[VP_LOG_CAP]; int vp_ok_n;
 struct vp_tracerec { const void *tracer; const char *file; unsigned long line; struct vp_string msg; };
 struct vp_tracerec vp_tr[VP_LOG_CAP]; int vp_tr_n;
